@@ -648,7 +648,7 @@ def run(ctx: Ctx) -> Result:
                       "or expired, an execution failed, or a cancellation landed inside a call; "
                       "distinct = distinct event traces")
     cases = [c for c in load_corpus("C20")]
-    n = ctx.n(500, 9000)
+    n = ctx.n(6000, 120000)
     mc = 4 if ctx.tier == "quick" else 6
     cases += [gen_case(ctx.rng, mc) for _ in range(n)]
     if ctx.tier == "thorough" and ctx.budget == 1.0:
